@@ -105,6 +105,13 @@ def _(it, a, info):
     if m > hi - lo: raise RustPanic('mid > len')
     return Agg('tuple', [SliceRef(base, lo, lo + m), SliceRef(base, lo + m, hi)])
 
+def small_value(it, x, n):
+    """x is known to lie in [0, n]: pick the concrete value by branching"""
+    if not is_sym(x): return x
+    for k in range(n + 1):
+        if truth(it, x == z3.BitVecVal(k, x.size())): return k
+    raise Unsupported('value outside [0,%d]' % n)
+
 def range_bounds(it, r, n):
     """-> (lo, hi) for Range / RangeFrom / RangeTo / RangeInclusive / RangeFull over length n"""
     ty = r.ty.split('::')[-1]
@@ -115,7 +122,11 @@ def range_bounds(it, r, n):
     elif ty == 'RangeInclusive': lo, hi = r.f[0], r.f[1] + 1
     elif ty == 'RangeToInclusive': lo, hi = 0, r.f[0] + 1
     else: raise Unsupported('range type ' + r.ty)
-    if is_sym(lo) or is_sym(hi): raise Unsupported('symbolic range bounds')
+    if is_sym(lo) or is_sym(hi):
+        # obligations first (these are the real panics of slice indexing), then concretise within [0, n]
+        if truth(it, do_binop('Gt', lo, hi, 'usize')): raise RustPanic('slice index starts at ? but ends at ?')
+        if truth(it, do_binop('Gt', hi, n, 'usize')): raise RustPanic('range end index ? out of range for slice of length %d' % n)
+        lo = small_value(it, lo, n); hi = small_value(it, hi, n)
     if lo > hi: raise RustPanic('slice index starts at %d but ends at %d' % (lo, hi))
     if hi > n: raise RustPanic('range end index %d out of range for slice of length %d' % (hi, n))
     return lo, hi
